@@ -258,7 +258,8 @@ structure SInv (s : St) : Prop where
 /-- The protocol the runner follows: a thread (re)opens a result only when it has no step open in the
     stream, and logs only while a step is current (the runner sets a step before calling user code).
     Entering a `prepare_attachment` block (`attachBegin`) needs nothing; leaving it (`attachEnd`) fires the
-    attachment event and therefore needs a current step, exactly like the atomic `attach`. -/
+    attachment event and therefore needs a current step, exactly like the atomic `attach`; leaving it by an
+    exception (`attachAbort`) fires nothing and needs nothing. -/
 def okOp (s : St) (t : Nat) : Op → Bool
   | .startSessionSetup | .startSessionTeardown | .startSuiteSetup _ | .startSuiteTeardown _
   | .startTest _ _ | .threadRun => !openFired s t
@@ -552,6 +553,13 @@ theorem sinv_step {s s' : St} {t : Nat} {op : Op} (hinv : SInv s) (hok : okOp s 
         cases hc : getCursor s t with
         | none => trivial
         | some c => rw [hc] at hok; exact hok
+  | attachAbort =>
+    simp only [step] at h
+    cases hf : s.prepared.find? (fun p => p.tid == t) with
+    | none => rw [hf] at h; cases h
+    | some p =>
+      rw [hf] at h; simp only at h; injection h with h; subst h
+      exact ⟨fun a c hc => hinv.pend a c hc, fun a => hinv.bal a, fun p hp => hinv.saved p hp⟩
   | threadCreate newTid =>
     simp only [step, withCursor] at h
     cases hc : getCursor s t with
